@@ -109,7 +109,12 @@ func init() {
 			b, _ := m.Bytes()
 			out = append(out, hxb(b))
 		}
-		return strings.TrimSpace("n=" + strconv.Itoa(len(out)) + " " + strings.Join(out, " "))
+		closed := "0"
+		if conn.closed {
+			closed = "1"
+		}
+		// the loop ends only when the stream stops decoding (or ends): the connection must have been closed
+		return strings.TrimSpace("n="+strconv.Itoa(len(out))+" "+strings.Join(out, " ")) + " closed=" + closed
 	})
 	// udpbuf run <n> <hex buffer contents (datagram followed by whatever the buffer held before)>:
 	// the REAL parse loop of UDPServerTransport (startParseMessage) is fed one (buffer, n) pair.
